@@ -306,7 +306,13 @@ def r4_r5(prog, rep):
         t = " ".join(mod.text(tests[0].test).split())
         ok = all(k in t for k in ("alpha > 0.0", "alpha < 1.0", "beta > 0.0", "beta < 1.0"))
     rep.ob("R4", "both parameters tested against the open interval (0,1)", ok, f.site(), "", key="intersect/interval")
-    # area
+    area_rules(prog, rep, "R5")
+
+
+def area_rules(prog, rep, R="R5"):
+    """polygons.area is the signed shoelace area of the *closed* polygon and clockwise is its
+    sign (also a premise of C11.R1: which way round the wall is stored)"""
+    mod = prog.module(POLY)
     fa = mod.funcs.get("area")
     fc = mod.funcs.get("clockwise")
     if fa is None or fc is None:
@@ -319,20 +325,47 @@ def r4_r5(prog, rep):
             summand = ex.expr(n.value, {})
     r1, z1, r2, z2 = ctx.sym("r1"), ctx.sym("z1"), ctx.sym("r2"), ctx.sym("z2")
     ok = isinstance(summand, Rat) and (summand - (-(r1 * z2 - r2 * z1) + (r2 * z2 - r1 * z1))).is_zero()
-    rep.ob("R5", "area summand == -(shoelace term) + telescoping term", ok, fa.site(), summand.show() if isinstance(summand, Rat) else "not found", key="area/summand")
-    # vertex pairing: (polygon[i], polygon[(i+1) % nvert]) and final factor 1/2
-    src = mod.text(fa.node)
-    ok = "polygon[i]" in src and "polygon[(i + 1) % nvert]" in src
-    rep.ob("R5", "area pairs vertex i with vertex (i+1) mod n (closed polygon)", ok, fa.site(), "", key="area/pairing")
+    rep.ob(R, "area summand == -(shoelace term) + telescoping term", ok, fa.site(), summand.show() if isinstance(summand, Rat) else "not found", key="area/summand")
+    # vertex pairing over the closed polygon: one term per vertex, (i, (i+1) mod n) or (i-1, i)
+    ok, detail = _closed_pairing(mod, fa)
+    rep.ob(R, "area pairs vertex i with vertex (i+1) mod n (closed polygon)", ok, fa.site(), detail, key="area/pairing")
     ret = [n for n in ast.walk(fa.node) if isinstance(n, ast.Return)]
     ok = False
     if ret:
         v = ex.expr(ret[0].value, {})
         ok = isinstance(v, Rat) and (v - ctx.sym("area") / 2).is_zero()
-    rep.ob("R5", "area returns half the accumulated sum", ok, fa.site(), "", key="area/half")
+    rep.ob(R, "area returns half the accumulated sum", ok, fa.site(), "", key="area/half")
     ret = [n for n in ast.walk(fc.node) if isinstance(n, ast.Return)]
-    ok = bool(ret) and " ".join(mod.text(ret[0].value).split()) in ("area(polygon) > 0", "area(polygon) > 0.0")
-    rep.ob("R5", "clockwise(polygon) == (area(polygon) > 0)", ok, fc.site(), "", key="clockwise/def")
+    ok = False
+    if ret and isinstance(ret[0].value, ast.Compare) and len(ret[0].value.ops) == 1 and isinstance(ret[0].value.ops[0], ast.Gt):
+        c = ret[0].value
+        ok = mod.code(c.left) == "area(polygon)" and isinstance(c.comparators[0], ast.Constant) and c.comparators[0].value == 0
+    rep.ob(R, "clockwise(polygon) == (area(polygon) > 0)", ok, fc.site(), "", key="clockwise/def")
+
+
+def _closed_pairing(mod, fa):
+    """the accumulation loop runs over all n vertices and pairs each with its cyclic neighbour"""
+    poly = fa.node.args.args[0].arg
+    lens = {}
+    for s in ast.walk(fa.node):
+        if isinstance(s, ast.Assign) and isinstance(s.targets[0], ast.Name):
+            t = mod.code(s.value)
+            if t in ("len(%s)" % poly, "%s.shape[0]" % poly):
+                lens[s.targets[0].id] = True
+    def is_n(node):
+        return (isinstance(node, ast.Name) and node.id in lens) or mod.code(node) in ("len(%s)" % poly, "%s.shape[0]" % poly)
+    for loop in ast.walk(fa.node):
+        if not (isinstance(loop, ast.For) and isinstance(loop.target, ast.Name) and isinstance(loop.iter, ast.Call) and mod.code(loop.iter.func) == "range"):
+            continue
+        if not (len(loop.iter.args) == 1 and is_n(loop.iter.args[0])):
+            return False, "loop runs over %s, not over all vertices" % mod.code(loop.iter)
+        i = loop.target.id
+        subs = [mod.code(x.slice) for x in ast.walk(loop) if isinstance(x, ast.Subscript) and isinstance(x.value, ast.Name) and x.value.id == poly]
+        nn = [k for k in lens] + ["len(%s)" % poly]
+        fwd = any(i == a for a in subs) and any(b in ["(%s+1)%%%s" % (i, n) for n in nn] for b in subs)
+        bwd = any(i == a for a in subs) and any(b == "%s-1" % i for b in subs)
+        return (fwd or bwd), "vertex subscripts %s" % sorted(set(subs))
+    return False, "accumulation loop not found"
 
 
 class CAEx(Extractor):
